@@ -10,10 +10,12 @@ package c20
 import (
 	"context"
 	"fmt"
+	"regexp"
 	"sort"
 	"strconv"
 	"strings"
 	"sync"
+	"sync/atomic"
 	"testing"
 	"time"
 
@@ -25,6 +27,8 @@ import (
 	"github.com/yandex/pandora/core/engine"
 	server "github.com/yandex/pandora/examples/grpc/server"
 	"google.golang.org/grpc/codes"
+	"google.golang.org/protobuf/encoding/protojson"
+	"google.golang.org/protobuf/proto"
 	"pgregory.net/rapid"
 )
 
@@ -36,6 +40,11 @@ import (
 //	pass   {{.request.auth.preprocessor.user.pass}}
 //	token  {{.request.auth.postprocessor.token}}      (captured from the Auth response of this invocation)
 //	uid    {{.request.auth.postprocessor.userId}}
+//	bearer Bearer {{.request.auth.postprocessor.token}}   (literal text around an action)
+//	fmt    {{printf "%s/%s" .source.vars.hdr .request.auth.preprocessor.user.login}}   (a built-in function of Go templates)
+//	uuid   {{uuid}}              (randomization functions of docs/eng/scenario/functions.md: the value is random, its
+//	rint   {{randInt 100 200}}    form is what the documentation says)
+//	rstr   {{randString 6}}
 type MD struct {
 	Key  string `json:"key"`
 	Kind string `json:"kind"`
@@ -43,9 +52,13 @@ type MD struct {
 }
 
 type SCall struct {
-	Method string `json:"method"` // List | Order
+	Method string `json:"method"` // List | Order | Hello (fixed payload only)
 	Count  int    `json:"count"`  // multiplicity name(n)
 	MD     []MD   `json:"metadata"`
+	// Payload, when not empty, is the call's payload written as is: a JSON text WITHOUT any template action (a
+	// constant body, {} ...), so that only the call's metadata values may need rendering. Empty = the payload template
+	// over this invocation's token and user id.
+	Payload string `json:"fixed_payload,omitempty"`
 }
 
 type ScenCase struct {
@@ -62,6 +75,8 @@ type ScenCase struct {
 	// scenario an invocation was.
 	Extra  []Scen `json:"extra_scenarios,omitempty"`
 	Weight int    `json:"weight,omitempty"` // weight of the first scenario (0 = 1)
+	// reflect_port set to a second listener that serves only reflection (the service is on the target port)
+	ReflectPort bool `json:"reflect_port,omitempty"`
 }
 
 type SRef struct {
@@ -106,11 +121,22 @@ func (c ScenCase) weight(k int) int {
 
 var mdKeys = []string{"authorization", "x-login", "x-pass", "x-user", "x-trace", "x-lit", "x-src", "payload", "url", "body"}
 
+// random: the value of the kind is drawn anew at every rendering (only its form is known)
+func (m MD) random() bool { return m.Kind == "uuid" || m.Kind == "rint" || m.Kind == "rstr" }
+
+// perInvocation: the rendered value differs from invocation to invocation and is known to the harness
+func (m MD) perInvocation() bool { return m.Kind != "lit" && m.Kind != "src" && !m.random() }
+
+// fromResponse: the value comes from the Auth response of the same invocation
+func (m MD) fromResponse() bool { return m.Kind == "token" || m.Kind == "uid" || m.Kind == "bearer" }
+
+func (m MD) templated() bool { return m.Kind != "lit" }
+
 func genMD(t *rapid.T, auth bool) []MD {
 	n := rapid.IntRange(0, 4).Draw(t, "mdN")
-	kinds := []string{"lit", "src", "login", "pass"}
+	kinds := []string{"lit", "src", "login", "pass", "login", "fmt", "uuid", "rint", "rstr"}
 	if !auth {
-		kinds = append(kinds, "token", "token", "uid")
+		kinds = append(kinds, "token", "token", "uid", "token", "uid", "bearer", "bearer")
 	}
 	seen := map[string]bool{}
 	var out []MD
@@ -146,6 +172,22 @@ func genScenCase(t *rapid.T) ScenCase {
 			MD:     genMD(t, false),
 		})
 	}
+	// one call in three has a payload without any template action (a constant body, an empty message, a hello /
+	// health request): what changes per shot is only in its metadata
+	for i := range c.Calls {
+		if rapid.IntRange(0, 2).Draw(t, "fixedPayload") != 0 {
+			continue
+		}
+		cl := &c.Calls[i]
+		cl.Method = rapid.SampledFrom([]string{"List", "Order", "Hello", "Hello"}).Draw(t, "fixedMethod")
+		body := map[string][]string{
+			"Hello": {`{}`, `{"name": "load"}`, `{"name": "health check"}`},
+			"List":  {`{}`, `{"user_id": 7, "token": "fixed"}`, `{"token": "t0"}`},
+			"Order": {`{}`, `{"user_id": 7, "item_id": 8, "token": "fixed"}`, `{"itemId": "12"}`},
+		}[cl.Method]
+		cl.Payload = rapid.SampledFrom(body).Draw(t, "fixedBody")
+	}
+	c.ReflectPort = rapid.IntRange(0, 3).Draw(t, "reflectPort") == 0
 	// two cases in three: 1-2 further scenarios over the same calls; the provider hands the scenarios out in turn by
 	// weight, so one instance shoots them in mixed order
 	for k, extra := 0, rapid.SampledFrom([]int{0, 1, 1, 2, 2, 2}).Draw(t, "extraScenarios"); k < extra; k++ {
@@ -180,20 +222,71 @@ func mdTemplate(m MD) string {
 		return "{{.request.auth.postprocessor.token}}"
 	case "uid":
 		return "{{.request.auth.postprocessor.userId}}"
+	case "bearer":
+		return "Bearer {{.request.auth.postprocessor.token}}"
+	case "fmt":
+		return `{{printf "%s/%s" .source.vars.hdr .request.auth.preprocessor.user.login}}`
+	case "uuid":
+		return "{{uuid}}"
+	case "rint":
+		return "{{randInt 100 200}}"
+	case "rstr":
+		return "{{randString 6}}"
 	}
 	return ""
 }
 
+var (
+	reUUID = regexp.MustCompile(`^[0-9a-f]{8}-[0-9a-f]{4}-4[0-9a-f]{3}-[89ab][0-9a-f]{3}-[0-9a-f]{12}$`)
+	reRStr = regexp.MustCompile(`^[^{}]{6}$`) // "a string of length X"; the alphabet is not documented
+)
+
+// mdWant is the text the metadata value renders to for the invocation; for the random kinds ok tells whether got has
+// the documented form (want is then a description of it).
+func mdWant(m MD, iv *inv, got string) (want string, ok bool) {
+	switch m.Kind {
+	case "lit":
+		want = m.Lit
+	case "src":
+		want = srcVal
+	case "login":
+		want = iv.login
+	case "pass":
+		want = iv.pass
+	case "token":
+		want = iv.token
+	case "uid":
+		want = strconv.FormatInt(iv.uid, 10)
+	case "bearer":
+		want = "Bearer " + iv.token
+	case "fmt":
+		want = srcVal + "/" + iv.login
+	case "uuid":
+		return "a uuid v4", reUUID.MatchString(got)
+	case "rint":
+		n, err := strconv.Atoi(got)
+		return "a number between 100 and 200", err == nil && n >= 100 && n <= 200
+	case "rstr":
+		return "a random string of length 6", reRStr.MatchString(got)
+	}
+	return want, got == want
+}
+
 func yq(s string) string { return strconv.Quote(s) } // a JSON string is a valid YAML double-quoted scalar
 
-func (c ScenCase) yaml(csv string) string {
+// runSeq numbers the evaluations of this process: every call of a description carries the literal metadata
+// x-run: r<n>, by which a call that an EARLIER evaluation's client had given up on (its timeout passed on a starved
+// machine before the server got to it) is told from the calls of this evaluation.
+var runSeq atomic.Int64
+
+func (c ScenCase) yaml(csv string, runID string) string {
 	var sb strings.Builder
 	fmt.Fprintf(&sb, "variable_sources:\n  - type: file/csv\n    name: users\n    file: %s\n    fields: [user_id, login, pass]\n    ignore_first_line: false\n    delimiter: \",\"\n", csv)
 	fmt.Fprintf(&sb, "  - type: variables\n    name: vars\n    variables:\n      hdr: %s\n      item: 31\n", srcVal)
 	sb.WriteString("calls:\n")
 	writeMD := func(step string, mds []MD) {
 		sb.WriteString("    metadata:\n")
-		fmt.Fprintf(&sb, "      x-step: %s\n", step)
+		fmt.Fprintf(&sb, "      x-step: %s\n      x-run: %s\n", step, runID)
 		for _, m := range mds {
 			fmt.Fprintf(&sb, "      %s: %s\n", m.Key, yq(mdTemplate(m)))
 		}
@@ -206,7 +299,9 @@ func (c ScenCase) yaml(csv string) string {
 	for i, cl := range c.Calls {
 		fmt.Fprintf(&sb, "  - name: c%d\n    tag: t%d\n    call: target.TargetService.%s\n", i, i, cl.Method)
 		writeMD(fmt.Sprintf("c%d", i), cl.MD)
-		if cl.Method == "List" {
+		if cl.Payload != "" {
+			fmt.Fprintf(&sb, "    payload: %s\n", yq(cl.Payload))
+		} else if cl.Method == "List" {
 			sb.WriteString("    payload: '{\"user_id\": {{.request.auth.postprocessor.userId}}, \"token\": \"{{.request.auth.postprocessor.token}}\"}'\n")
 		} else {
 			sb.WriteString("    payload: '{\"user_id\": {{.request.auth.postprocessor.userId}}, \"item_id\": {{.source.vars.item}}, \"token\": \"{{.request.auth.postprocessor.token}}\"}'\n")
@@ -215,7 +310,7 @@ func (c ScenCase) yaml(csv string) string {
 	multi := len(c.Extra) > 0
 	if multi {
 		for k := 0; k <= len(c.Extra); k++ {
-			fmt.Fprintf(&sb, "  - name: m%d\n    tag: m%d\n    call: target.TargetService.Hello\n    metadata:\n      x-step: m%d\n", k, k, k)
+			fmt.Fprintf(&sb, "  - name: m%d\n    tag: m%d\n    call: target.TargetService.Hello\n    metadata:\n      x-step: m%d\n      x-run: %s\n", k, k, k, runID)
 			sb.WriteString("    payload: '{\"name\": \"{{.request.auth.postprocessor.token}}\"}'\n")
 		}
 	}
@@ -278,7 +373,9 @@ func checkScen(c ScenCase, o *vf.Obs) error {
 	}
 	csvName := pand.WriteFile("c20u", ".csv", []byte(csv.String()))
 	defer pand.Remove(csvName)
-	desc := c.yaml(csvName)
+	runN := runSeq.Add(1)
+	runID := fmt.Sprintf("r%d", runN)
+	desc := c.yaml(csvName, runID)
 	name := pand.WriteFile("c20s", ".yaml", []byte(desc))
 	defer pand.Remove(name)
 	out := pand.TempName("c20s", ".phout")
@@ -287,6 +384,12 @@ func checkScen(c ScenCase, o *vf.Obs) error {
 		c.TimeoutMs = 2000
 	}
 	gun := map[string]any{"type": "grpc/scenario", "target": tg.Addr(), "timeout": fmt.Sprintf("%dms", c.TimeoutMs)}
+	var rf *target.GRPCReflect
+	if c.ReflectPort {
+		rf = target.SharedGRPCReflect() // used under the shared target's lock
+		rf.Reset()
+		gun["reflect_port"] = rf.Port()
+	}
 	pool := map[string]any{
 		"id": "p", "gun": gun,
 		"ammo":    map[string]any{"type": "grpc/scenario", "file": name, "limit": c.Shots},
@@ -312,10 +415,38 @@ func checkScen(c ScenCase, o *vf.Obs) error {
 	fail := func(format string, a ...any) error {
 		return fmt.Errorf(format+"\n--- description ---\n%s", append(a, desc)...)
 	}
+	if rf != nil {
+		if stray := rf.Stray(); len(stray) > 0 {
+			return fail("%d calls (first: %s) arrived at the reflection port %d; the gun's target is %s and reflect_port is only where the reflection service is",
+				len(stray), stray[0], rf.Port(), tg.Addr())
+		}
+		if rf.Streams() == 0 {
+			return fail("reflect_port is set to %d but no reflection stream was opened on that port", rf.Port())
+		}
+	}
 	// ---- group the server's calls into invocations by the token the server itself issued ----
 	byToken := map[string]*inv{}
 	var invs []*inv
-	calls := tg.Calls()
+	// the server answers at once: a sample that says 504 is a call that timed out on the client (reported first, so that
+	// what follows from it - the rest of the invocation is not shot - is not mistaken for something else)
+	if data, err := afero.ReadFile(pand.FS(), out); err == nil {
+		for _, ln := range strings.Split(string(data), "\n") {
+			if f := strings.Split(ln, "\t"); len(f) == 12 && f[11] == "504" {
+				return fail("a call answered OK left a sample with code 504: %q", ln)
+			}
+		}
+	}
+	var calls []target.GCall
+	for _, call := range tg.Calls() {
+		v, ok := one(call, "x-run")
+		if n, err := strconv.ParseInt(strings.TrimPrefix(v, "r"), 10, 64); ok && err == nil && strings.HasPrefix(v, "r") && n >= 1 && n < runN {
+			continue // a call of an earlier evaluation that reached the handler only now
+		}
+		if !ok || v != runID {
+			return fail("%s call arrived with x-run metadata %q, every call of the description carries the literal %q", call.Method, v, runID)
+		}
+		calls = append(calls, call)
+	}
 	type resp struct {
 		token string
 		uid   int64
@@ -360,9 +491,43 @@ func checkScen(c ScenCase, o *vf.Obs) error {
 		return fail("%d Auth calls reached the server, %d scenario invocations were shot", len(invs), c.Shots)
 	}
 	multi := len(c.Extra) > 0
+	// calls with a fixed payload carry nothing in their message that tells the invocation: what arrived for such a
+	// call - the metadata values of each arrival, in the order of the description - is compared as a multiset with the
+	// renderings for the invocations whose scenario lists the call (below)
+	fixedGot := map[int][]string{}
 	for _, call := range calls {
 		if call.Method == "Auth" {
 			continue
+		}
+		if step, ok := one(call, "x-step"); ok && strings.HasPrefix(step, "c") {
+			if idx, err := strconv.Atoi(strings.TrimPrefix(step, "c")); err == nil && idx >= 0 && idx < len(c.Calls) && c.Calls[idx].Payload != "" {
+				cl := c.Calls[idx]
+				if cl.Method != call.Method {
+					return fail("call %s is a %s in the description, the server got a %s with its metadata", step, cl.Method, call.Method)
+				}
+				want := newReq(cl.Method)
+				if err := protojson.Unmarshal([]byte(cl.Payload), want); err != nil {
+					return fmt.Errorf("harness: reference parse of a fixed payload failed: %v (%s)", err, cl.Payload)
+				}
+				if !proto.Equal(call.Req, want) {
+					return fail("call %s (%s): server received %v, the payload %s means %v", step, cl.Method, call.Req, cl.Payload, want)
+				}
+				var tuple []string
+				for _, m := range cl.MD {
+					got, ok := one(call, m.Key)
+					if m.random() {
+						if form, fits := mdWant(m, nil, got); !ok || !fits {
+							return fail("call %s: metadata %s = %q at the server; its template %q renders to %s", step, m.Key, got, mdTemplate(m), form)
+						}
+						got = "<random>"
+					} else if !ok {
+						return fail("call %s: metadata %s arrived with %d values (%q), the description gives one", step, m.Key, len(call.MD.Get(m.Key)), got)
+					}
+					tuple = append(tuple, m.Key+"="+strconv.Quote(got))
+				}
+				fixedGot[idx] = append(fixedGot[idx], strings.Join(tuple, " "))
+				continue
+			}
 		}
 		var token string
 		var uid, item int64
@@ -425,9 +590,52 @@ func checkScen(c ScenCase, o *vf.Obs) error {
 			want[r.Call] += r.Count
 		}
 		for i := range c.Calls {
+			if c.Calls[i].Payload != "" {
+				continue // compared as a multiset over all invocations below
+			}
 			if got := iv.calls[fmt.Sprintf("c%d", i)]; got != want[i] {
 				return fail("invocation of %s (token %s, scenario %s): call c%d reached the server %d times, the scenario lists it %d times",
 					iv.login, iv.token, scenName(iv.scen), i, got, want[i])
+			}
+		}
+	}
+	fixedShot, fixedTemplated, fixedPerInv := false, false, false
+	for i, cl := range c.Calls {
+		if cl.Payload == "" {
+			continue
+		}
+		var wantTuples []string
+		for _, iv := range invs {
+			n := 0
+			for _, r := range c.refs(iv.scen) {
+				if r.Call == i {
+					n += r.Count
+				}
+			}
+			var tuple []string
+			for _, m := range cl.MD {
+				w := "<random>"
+				if !m.random() {
+					w, _ = mdWant(m, iv, "")
+				}
+				tuple = append(tuple, m.Key+"="+strconv.Quote(w))
+			}
+			for ; n > 0; n-- {
+				wantTuples = append(wantTuples, strings.Join(tuple, " "))
+			}
+		}
+		got := append([]string(nil), fixedGot[i]...)
+		sort.Strings(got)
+		sort.Strings(wantTuples)
+		if strings.Join(got, "\n") != strings.Join(wantTuples, "\n") {
+			return fail("call c%d (fixed payload %s) reached the server %d times with the metadata\n  %s\nits metadata templates rendered for the %d invocations whose scenario lists it give %d calls with\n  %s",
+				i, cl.Payload, len(got), strings.Join(got, "\n  "), len(invs), len(wantTuples), strings.Join(wantTuples, "\n  "))
+		}
+		if len(wantTuples) > 0 {
+			fixedShot = true
+			for _, m := range cl.MD {
+				fixedTemplated = fixedTemplated || m.templated()
+				fixedPerInv = fixedPerInv || m.perInvocation()
 			}
 		}
 	}
@@ -483,10 +691,10 @@ func checkScen(c ScenCase, o *vf.Obs) error {
 	for i, cl := range c.Calls {
 		callPerInv := false
 		for _, m := range cl.MD {
-			if m.Kind == "token" || m.Kind == "uid" {
+			if m.fromResponse() {
 				captured = true
 			}
-			if m.Kind != "lit" && m.Kind != "src" {
+			if m.perInvocation() {
 				perInv, callPerInv = true, true
 			}
 		}
@@ -515,6 +723,25 @@ func checkScen(c ScenCase, o *vf.Obs) error {
 			sharedPerInv = true // auth is every scenario's first call
 		}
 	}
+	fnMD, randMD := false, false
+	for _, mds := range append([][]MD{c.AuthMD}, func() (out [][]MD) {
+		for _, cl := range c.Calls {
+			out = append(out, cl.MD)
+		}
+		return
+	}()...) {
+		for _, m := range mds {
+			fnMD = fnMD || m.Kind == "fmt" || m.random()
+			randMD = randMD || m.random()
+		}
+	}
+	o.ClassIf(fixedShot, "fixed_payload_call")
+	o.ClassIf(fixedTemplated, "fixed_payload_templated_metadata")
+	o.ClassIf(fixedPerInv, "fixed_payload_per_invocation_metadata")
+	o.ClassIf(fixedPerInv && len(invs) >= 2, "fixed_payload_per_invocation_metadata_ge_2_invocations")
+	o.ClassIf(fnMD, "metadata_with_template_function")
+	o.ClassIf(randMD, "metadata_with_random_function")
+	o.ClassIf(c.ReflectPort, "reflect_port")
 	o.ClassIf(multi, "several_scenarios")
 	o.ClassIf(len(scenSeen) >= 2, "several_scenarios_shot")
 	o.ClassIf(len(scenSeen) >= 2 && mixed, "scenarios_in_mixed_order")
@@ -550,23 +777,9 @@ func checkMD(call target.GCall, step string, mds []MD, iv *inv) error {
 		return fmt.Errorf("call %s arrived with x-step metadata %q", step, got)
 	}
 	for _, m := range mds {
-		var want string
-		switch m.Kind {
-		case "lit":
-			want = m.Lit
-		case "src":
-			want = srcVal
-		case "login":
-			want = iv.login
-		case "pass":
-			want = iv.pass
-		case "token":
-			want = iv.token
-		case "uid":
-			want = strconv.FormatInt(iv.uid, 10)
-		}
 		got, ok := one(call, m.Key)
-		if !ok || got != want {
+		want, fits := mdWant(m, iv, got)
+		if !ok || !fits {
 			return fmt.Errorf("call %s of the invocation (login %s, token %s): metadata %s = %q at the server; its template %q renders to %q for this invocation",
 				step, iv.login, iv.token, m.Key, got, mdTemplate(m), want)
 		}
